@@ -29,8 +29,8 @@ import (
 // ---- s-expressions ---------------------------------------------------------
 
 type sexp struct {
-	atom string
-	list []*sexp
+	atom   string
+	list   []*sexp
 	isList bool
 }
 
@@ -255,13 +255,13 @@ func smtStringDecode(a string) (string, bool) {
 // ---- input reconstruction ----------------------------------------------------
 
 type modelQuery struct {
-	o      *Obligation
-	pins   []string
-	vals   map[string]*sexp
-	rounds int
-	err    string
-	timeout int
-	light  bool // draw candidate inputs from the hypothesis-reduced query (validated by the replay itself)
+	o        *Obligation
+	pins     []string
+	vals     map[string]*sexp
+	rounds   int
+	err      string
+	timeout  int
+	light    bool // draw candidate inputs from the hypothesis-reduced query (validated by the replay itself)
 	deadline time.Time
 }
 
@@ -323,20 +323,20 @@ func (q *modelQuery) get(terms []string) bool {
 }
 
 type inVal struct {
-	T      types.Type
-	GoLit  string
-	Canon  string
-	OK     bool
-	Note   string
+	T     types.Type
+	GoLit string
+	Canon string
+	OK    bool
+	Note  string
 }
 
 type rebuilder struct {
-	q     *modelQuery
-	g     *Gen
-	st    *State // state in which heap contents are read
-	qual  types.Qualifier
-	notes []string
-	depth int
+	q       *modelQuery
+	g       *Gen
+	st      *State // state in which heap contents are read
+	qual    types.Qualifier
+	notes   []string
+	depth   int
 	imports map[string]bool
 }
 
